@@ -17,6 +17,8 @@ use crate::sync::thread::{self, ThreadId};
 static ENABLED: AtomicBool = AtomicBool::new(false);
 static YIELD_STATE: AtomicU64 = AtomicU64::new(0);
 static HANDLE_IDS: AtomicU64 = AtomicU64::new(0);
+/// opt-in: the `ts` (tracked struct) class is only written when this is set as well
+static STRUCTS: AtomicBool = AtomicBool::new(false);
 
 struct Sink {
     lines: Vec<String>,
@@ -55,6 +57,17 @@ pub fn disable() {
 #[inline]
 pub fn is_enabled() -> bool {
     ENABLED.load(Ordering::Relaxed)
+}
+
+/// Turn the `ts` class (tracked-struct protocol lines) on or off; off by default, independent of
+/// [`enable`], so that traces of harnesses that do not ask for it are unchanged.
+pub fn set_struct_tracing(on: bool) {
+    STRUCTS.store(on, Ordering::SeqCst);
+}
+
+#[inline]
+pub(crate) fn structs_enabled() -> bool {
+    ENABLED.load(Ordering::Relaxed) && STRUCTS.load(Ordering::Relaxed)
 }
 
 /// Remove and return all lines recorded so far.
@@ -137,6 +150,45 @@ impl fmt::Display for K {
             self.0.key_index().index()
         )
     }
+}
+
+/// `<ingredient>:<index>g<generation>` for a tracked-struct id (class `ts`).
+#[derive(Copy, Clone)]
+pub(crate) struct SId(pub crate::zalsa::IngredientIndex, pub crate::Id);
+
+impl fmt::Display for SId {
+    fn fmt(&self, f: &mut fmt::Formatter<'_>) -> fmt::Result {
+        write!(
+            f,
+            "{}:{}g{}",
+            self.0.as_u32(),
+            self.1.index(),
+            self.1.generation()
+        )
+    }
+}
+
+/// `<revision>` or `none` (class `ts`: the `updated_at` lock word).
+pub(crate) struct OptRev(pub Option<crate::Revision>);
+
+impl fmt::Display for OptRev {
+    fn fmt(&self, f: &mut fmt::Formatter<'_>) -> fmt::Result {
+        match self.0 {
+            Some(r) => write!(f, "{}", r.as_usize()),
+            None => f.write_str("none"),
+        }
+    }
+}
+
+/// Append `ts <op> t<me> <args>` if the `ts` class is enabled.
+pub(crate) fn ts(op: &str, args: fmt::Arguments<'_>) {
+    if !structs_enabled() {
+        return;
+    }
+    emit_with("ts", op, |_, out| {
+        use fmt::Write;
+        let _ = out.write_fmt(args);
+    });
 }
 
 /// Sort key of a database key: `(ingredient, index)`.
